@@ -2,7 +2,7 @@
 (* Enumerates the configurations of the composite circuits; for the sign family the predicted schedule (number of  *)
 (* bootstraps, output level) is attached so that the orchestration can keep one configuration per distinct schedule. *)
 EXTENDS Composite, TLC, Json
-CONSTANTS Sets,      \* sequence of [name, maxlevel, lpr, logscale, logn, ci, minins (set), comps (set of names)]
+CONSTANTS Sets,      \* sequence of [name, maxlevel, lpr, logscale, logn, ci, minins (set), comps (set of names), mod1 (set of mod1 types)]
           Comps,     \* function name -> sequence of depths
           Circuits, LogMaxs
 VARIABLES cfg, phase
@@ -11,10 +11,14 @@ Sig(s, c, comp, lv, mi) ==
     IF c \in {"sign", "step"} THEN LET r == Evaluate(Comps[comp], lv, s.lpr, mi, s.maxlevel) IN <<Len(r.boots), r.lvl>>
     ELSE IF c \in {"max", "min"} THEN LET r == StepDiff(Comps[comp], lv, s.lpr, mi, s.maxlevel, FALSE, FALSE) IN <<Len(r.boots), r.lvl>>
     ELSE <<0 - 1, lv>>
+\* mod 1 (the repository's configurations): the input sits at the top level, the output scaling is 1, 2 or 1/2 (in quarters)
+Mod1Cfgs(s) == {[set |-> s.name, circuit |-> "mod1", comp |-> t, inlvl |-> s.maxlevel, minin |-> 0, logmax |-> 0, scaling |-> sc, sig |-> <<0 - 1, 0>>] :
+                   t \in s.mod1, sc \in {4, 8, 2}}
 Lvls(s, mi) == {lv \in 0..s.maxlevel : lv >= mi /\ Usable(lv, s.lpr)}
-CfgsOf(s, c, mi) == {[set |-> s.name, circuit |-> c, comp |-> comp, inlvl |-> lv, minin |-> mi, logmax |-> lm, sig |-> Sig(s, c, comp, lv, mi)] :
+CfgsOf(s, c, mi) == {[set |-> s.name, circuit |-> c, comp |-> comp, inlvl |-> lv, minin |-> mi, logmax |-> lm, scaling |-> 4, sig |-> Sig(s, c, comp, lv, mi)] :
                         comp \in s.comps, lv \in Lvls(s, mi), lm \in (IF c \in {"invpos", "invneg", "invfull"} THEN LogMaxs ELSE {0})}
 Cfgs == UNION {UNION {UNION {CfgsOf(Sets[i], c, mi) : mi \in Sets[i].minins} : c \in Circuits} : i \in 1..Len(Sets)}
+        \cup UNION {Mod1Cfgs(Sets[i]) : i \in 1..Len(Sets)}
 Next == /\ phase = "start"
         /\ \E c \in Cfgs : cfg' = c
         /\ phase' = "done"
